@@ -84,7 +84,7 @@ def meta(tier):
     return {
         'rule': 'every program over the 19-symbol zone alphabet (incl. zone / origin directives with a label in front of them, a macro of two sub-byte steps) up to the depth bound under 9 zone layouts (predefined / created in '
                 'source, default / redefined GLOBAL, nested / overlapping / adjacent zones, zones sharing exactly one address, a one-address zone, zone names differing only in letter case, a zone called global, zones at the top of a 5-bit address '
-                'space), plus every ill-formed declaration from the grid; expected: image of the reference layout, or rejection '
+                'space), plus every program [zone directive] byte / #mute / zone directive [bytes] / #unmute / [zone directive] bytes (a zone selected in a muted stretch stays selected), plus every ill-formed declaration from the grid; expected: image of the reference layout, or rejection '
                 'iff a byte would lie outside its selected zone or GLOBAL (or two lines collide); non-trivial = program that '
                 'switches zone at least once and emits bytes in two zones, or that is rejected for leaving a zone; '
                 'states = distinct reference cursor/zone states',
@@ -95,7 +95,7 @@ def meta(tier):
                         '(the statement only demands rejection when a byte would lie outside)',
                         'a predefined (ISA) zone outside a redefined GLOBAL is not judged (the statement names source-declared zones)'],
         'floors': {'evaluations': 1000, 'nontrivial': 100, 'statuses': ['OK', 'REJECT'],
-                   'clauses': ['accepted', 'rejected-outside-zone', 'declaration-rejected', 'declaration-accepted']},
+                   'clauses': ['accepted', 'rejected-outside-zone', 'declaration-rejected', 'declaration-accepted', 'muted-selection']},
         'nshards': 64,
     }
 
@@ -139,6 +139,33 @@ def shard(acc, tier, idx, n):
 
             ref, out, msg = run_program(acc, params, isa, files, clause=clause, nontrivial=nt, sample=(len(h) == depth))
             acc.state((li, tuple(sorted(ref.mem)), ref.state_key[2] if ref.state_key else None))
+    # ---- zone selected inside a muted stretch: it stays selected for what follows, muted or not ---------------------
+    ctr = 0
+    for li, lay in enumerate(LAYOUTS[:4] if q else LAYOUTS):
+        params = layout_params(lay)
+        isa = probe_isa(AS, 'little', origin=params.origin or None, zones=params.zones or None)
+        pre = prelude(lay)
+        zsyms = list(range(9)) + [15, 16]
+        for a, b, c, d in itertools.product([None] + zsyms[:3], zsyms, (None, 9, 10, 11), (None, 0, 1, 6)):
+            ctr += 1
+            if ctr % n != idx:
+                continue
+            stmts = list(pre)
+            if a is not None:
+                stmts.append(sigma(lay, 0)[a])
+            stmts += [('data', 1, [0x21]), ('mute',), sigma(lay, 1)[b]]
+            if c is not None:
+                stmts.append(sigma(lay, 2)[c])
+            stmts.append(('unmute',))
+            if d is not None:
+                stmts.append(sigma(lay, 3)[d])
+            stmts += [('data', 1, [0x22, 0x23]), ('data', 1, [0x3F])]
+
+            def clause(r):
+                if r.status == 'REJECT':
+                    return 'rejected-outside-zone' if 'outside zone' in r.reason else 'rejected'
+                return 'muted-selection'
+            run_program(acc, params, isa, {'main.asm': stmts}, clause=clause, nontrivial=('muted', li, a, b, c, d), sample=(ctr % 97 == 0))
     # ---- declarations ---------------------------------------------------------------------------
     grid = [-1, 0, 1, 2, 5, 13, 14, 31, 32, 33]
     ctr = 0
